@@ -207,18 +207,20 @@ theorem module_stub_path (d : StubData) (pkg : String) (hp : d.isPackageModule =
 
 /-! ### 9. placeholder stubs for classes of other libraries -/
 
-/-- For class path `cp = s₁.….sₙ.C` the placeholder goes to `s₁/…/sₙ/sₙ.sdsstub`, and a freshly written
-    file starts with the header announcing `s₁.….sₙ` (`header_announces_python_module`; for the segments of
-    its package line see `placeholder_package_line_spells_dir`). -/
+/-- For class path `cp = s₁.….sₙ.C` the placeholder goes to `s₁/…/sₙ/<sₙ without leading underscores>.sdsstub`
+    (like the stub of a module of the package, `stubPath_shape`), and a freshly written file starts with the
+    header announcing `s₁.….sₙ` (`header_announces_python_module`; for the segments of its package line see
+    `placeholder_package_line_spells_dir`). -/
 theorem placeholder_path_spells_package (env : Env) (cp : String) (created existing : List String) (op : WriteOp)
     (created' : List String)
     (h : createOutsidePackageClass env.safe cp created existing = .ok (op, created')) :
     dropLast' (splitDot cp) ≠ []
     ∧ op.path = joinWith "/" (pathParts (joinWith "/" (dropLast' (splitDot cp)))
-                              ++ [lastD "" (dropLast' (splitDot cp)) ++ ".sdsstub"])
+                              ++ [pyLstrip (lastD "" (dropLast' (splitDot cp))) "_" ++ ".sdsstub"])
     ∧ ((∀ s ∈ dropLast' (splitDot cp), '/' ∉ s.toList ∧ s ≠ "") →
-        op.path = joinWith "/" (dropLast' (splitDot cp) ++ [lastD "" (dropLast' (splitDot cp)) ++ ".sdsstub"])
-        ∧ splitSlash op.path = dropLast' (splitDot cp) ++ [lastD "" (dropLast' (splitDot cp)) ++ ".sdsstub"])
+        op.path = joinWith "/" (dropLast' (splitDot cp) ++ [pyLstrip (lastD "" (dropLast' (splitDot cp))) "_" ++ ".sdsstub"])
+        ∧ splitSlash op.path
+            = dropLast' (splitDot cp) ++ [pyLstrip (lastD "" (dropLast' (splitDot cp))) "_" ++ ".sdsstub"])
     ∧ (op.mode = .write → ∃ rest, op.text = packageHeader env (joinWith "." (dropLast' (splitDot cp))) ++ rest)
     ∧ splitDot (joinWith "." (dropLast' (splitDot cp))) = dropLast' (splitDot cp) := by
   obtain ⟨hne, hp, _, hcase⟩ := createOutsidePackageClass_ok h
@@ -227,23 +229,9 @@ theorem placeholder_path_spells_package (env : Env) (cp : String) (created exist
     have hpp : pathParts (joinWith "/" (dropLast' (splitDot cp))) = dropLast' (splitDot cp) :=
       pathParts_joinWith _ (fun s hs' => ⟨(hs s hs').1, (hs s hs').2,
         ne_dot_of_mem_splitDot cp s (mem_dropLast' s _ hs')⟩)
-    have hp' : op.path = joinWith "/" (dropLast' (splitDot cp) ++ [lastD "" (dropLast' (splitDot cp)) ++ ".sdsstub"]) := by
-      rw [hp]; unfold outsideFile outsideModulePath outsideModuleName; rw [hpp]
-    refine ⟨hp', ?_⟩
-    rw [hp']
-    unfold splitSlash
-    apply pySplit_joinWith '/' "/" (by decide) _ (by simp)
-    intro s hs'
-    rw [List.mem_append, List.mem_singleton] at hs'
-    rcases hs' with hs' | rfl
-    · exact (hs s hs').1
-    · rw [String.toList_append, List.mem_append, not_or]
-      refine ⟨?_, by decide⟩
-      cases hl : (dropLast' (splitDot cp)).getLast? with
-      | none => rw [List.getLast?_eq_none_iff] at hl; exact absurd hl hne
-      | some m =>
-        rw [getLast?_lastD "" _ m hl]
-        exact (hs m (List.mem_of_getLast? hl)).1
+    refine ⟨?_, ?_⟩
+    · rw [hp]; unfold outsideFile outsideModulePath outsideModuleName; rw [hpp]
+    · rw [hp]; exact splitSlash_outsideFile cp hs
   · intro hw
     rcases hcase with ⟨ha, _⟩ | ⟨_, ht, _⟩
     · rw [ha] at hw; exact absurd hw (by simp)
@@ -252,6 +240,20 @@ theorem placeholder_path_spells_package (env : Env) (cp : String) (created exist
     apply pySplit_joinWith '.' "." (by decide) _ hne
     intro s hs
     exact sep_not_mem_pySplit '.' cp s (mem_dropLast' s _ hs)
+
+/-- The base name of a placeholder file is the module name `sₙ` without its leading underscores, exactly as for
+    the stubs of the package's own modules and re-exported declarations (`stubPath_segments`): the last
+    `/`-segment of the path is `sₙ.lstrip("_") + ".sdsstub"`, and the stem does not start with `_`. -/
+theorem placeholder_base_name (safe : Bool) (cp : String) (created existing : List String) (op : WriteOp)
+    (created' : List String)
+    (h : createOutsidePackageClass safe cp created existing = .ok (op, created'))
+    (hs : ∀ s ∈ dropLast' (splitDot cp), '/' ∉ s.toList ∧ s ≠ "") :
+    lastD "" (splitSlash op.path) = pyLstrip (lastD "" (dropLast' (splitDot cp))) "_" ++ ".sdsstub"
+    ∧ (pyLstrip (lastD "" (dropLast' (splitDot cp))) "_").toList.head? ≠ some '_' := by
+  obtain ⟨_, hp, _, _⟩ := createOutsidePackageClass_ok h
+  refine ⟨?_, pyLstrip_head_not_mem _ _ '_' (by decide)⟩
+  rw [hp, splitSlash_outsideFile cp hs, lastD_append_singleton]
+  rfl
 
 /-- The package line of a placeholder, segment by segment: for the announced path
     `pkg = s₁.….sₙ` (which the convention leaves unchanged, else it is in the annotation) the line is
@@ -365,6 +367,28 @@ example :
             [("pkg/colors/colors.sdsstub", "package pkg.colors\n\nclass Color\n")]) := by
   decide +kernel
 
+/-- COUNTEREXAMPLE 2' (same exclusion, new instances since the placeholder's file name drops the leading
+    underscores of the module name): the placeholder for class `pkg._colors.Color` goes to
+    `pkg/_colors/colors.sdsstub`, the file of the module stub of `pkg._colors`, and is *written* over it.
+    (With the file name `_colors.sdsstub` the two did not meet: no module stub has a leading underscore.) -/
+example :
+    ((createStubFiles true [{ dir := "pkg/_colors", name := "_colors", text := "M", isPackageModule := false }]
+        ["pkg._colors.Color"] []).toOption.map
+      fun ops => (ops.map fun o => (o.path, o.mode), applyWrites [] ops))
+    = some ([("pkg/_colors/colors.sdsstub", .write), ("pkg/_colors/colors.sdsstub", .write)],
+            [("pkg/_colors/colors.sdsstub", "@PythonModule(\"pkg._colors\")\npackage pkg.Colors\n\nclass Color\n")]) := by
+  decide +kernel
+
+/-- NO new collision between placeholders: the foreign modules `lib._x` and `lib.x` have the same base name
+    `x.sdsstub` but different directories `lib/_x` and `lib/x` (the directory keeps the underscores); classes of
+    one module still share one file (`OutsideInjective` holds for all plain class paths as before,
+    `outsideInjective_of_plain`). -/
+example :
+    ((createStubFiles true [] ["lib._x.C", "lib.x.D", "lib._x.E"] []).toOption.map
+      fun ops => ops.map fun o => (o.path, o.mode))
+    = some [("lib/_x/x.sdsstub", .write), ("lib/_x/x.sdsstub", .append), ("lib/x/x.sdsstub", .write)] := by
+  decide +kernel
+
 /-- COUNTEREXAMPLE 3 (a third excluded situation): the class paths `a..b.C` and `a.b.D` have different
     directories `a//b` and `a/b`, hence both are "first creations", but the same normalised file. -/
 example :
@@ -372,7 +396,9 @@ example :
     = some [("a/b/b.sdsstub", .write), ("a/b/b.sdsstub", .write)] := by decide +kernel
 
 /-- Under the three exclusions — the stub paths are pairwise different, no placeholder file is a module stub
-    file, placeholder files of different directories are different (`OutsideInjective`; it holds when the
+    file (`outsideFile c`, the file name without leading underscores: this now also excludes a placeholder for
+    a class of the package's own private module `pkg._m` next to the module stub `pkg/_m/m.sdsstub`,
+    COUNTEREXAMPLE 2'), placeholder files of different directories are different (`OutsideInjective`; it holds when the
     directory segments of all class paths are non-empty and `/`-free, `outsideInjective_of_plain`) — every
     path receives at most one `write`, whatever the directory contains; and in an empty directory (or for
     coherent class paths) every append follows a write of the same run. -/
@@ -454,6 +480,18 @@ example : (createOutsidePackageClass true "np.core.Array" [] []).toOption.map (f
 example : (createOutsidePackageClass true "np.internal.Array" [] []).toOption.map (fun r => (r.1.path, r.1.mode, r.1.text, r.2))
     = some ("np/internal/internal.sdsstub", .write, "package np.`internal`\n\nclass Array\n", ["np/internal"]) := by
   decide +kernel
+/-- a class of a private module of another library: the directory keeps the underscore, the file name loses it
+    (like `stubPath` for the package's own modules); the package line is `package lib._impl`, or the converted
+    path plus the annotation under the naming convention -/
+example : (createOutsidePackageClass false "lib._impl.Thing" [] []).toOption.map (fun r => (r.1.path, r.1.mode, r.1.text, r.2))
+    = some ("lib/_impl/impl.sdsstub", .write, "package lib._impl\n\nclass Thing\n", ["lib/_impl"]) := by decide +kernel
+example : (createOutsidePackageClass true "lib._impl.Thing" [] []).toOption.map (fun r => (r.1.path, r.1.mode, r.1.text, r.2))
+    = some ("lib/_impl/impl.sdsstub", .write, "@PythonModule(\"lib._impl\")\npackage lib.Impl\n\nclass Thing\n", ["lib/_impl"]) := by
+  decide +kernel
+/-- only LEADING underscores go; a module name of underscores only leaves the bare suffix -/
+example : ((createOutsidePackageClass false "lib.__impl__.Thing" [] []).toOption.map (·.1.path),
+           (createOutsidePackageClass false "lib.__.Thing" [] []).toOption.map (·.1.path))
+    = (some "lib/__impl__/impl__.sdsstub", some "lib/__/.sdsstub") := by decide +kernel
 example : createOutsidePackageClass true "Array" [] [] = .error .indexError :=
   (placeholder_error_iff _ _ _ _ _).2 ⟨by decide, rfl⟩
 
@@ -485,6 +523,22 @@ example : (runGenerator exApi true).toOption.map (fun r =>
 example : (runGenerator exApi true).toOption.map (fun r => r.stubs.map (·.text))
     = some ["/**\n * Doc.\n */\n\n@PythonModule(\"pkg.my_mod\")\npackage pkg.myMod\n\nfrom numpy.core import Array\n\n@Pure\nfun keep() -> result1: Array\n",
             "package pkg\n\n// TODO Result type information missing.\n@Pure\n@PythonName(\"do_it\")\nfun doIt()\n"] := by
+  decide +kernel
+
+/-- a run that uses a class of a private module of another library (`lib._impl.Thing`): the import names the
+    module path with the underscore, the placeholder file is `lib/_impl/impl.sdsstub` and announces `lib._impl` -/
+private def exApiPriv : API :=
+  { package := "pkg",
+    modules := [
+      { id := "pkg/m", name := "m",
+        functions := [
+          { id := "pkg/m/f", name := "f", isPublic := true,
+            results := [{ id := "r", name := "result_1", type := some (.named "Thing" "lib._impl.Thing") }] }] }] }
+
+example : (runGenerator exApiPriv false).toOption.map (fun r => (r.outside, r.ops.map (fun o => (o.path, o.mode, o.text))))
+    = some (["lib._impl.Thing"],
+            [("pkg/m/m.sdsstub", .write, "package pkg.m\n\nfrom lib._impl import Thing\n\n@Pure\nfun f() -> result_1: Thing\n"),
+             ("lib/_impl/impl.sdsstub", .write, "package lib._impl\n\nclass Thing\n")]) := by
   decide +kernel
 
 /-- a run with the module id `pkg/sub/internal`, two segments of which are Safe-DS keywords: the directory is
